@@ -3,7 +3,7 @@ CONSTANTS
   MinTips = 2
   MaxTips = 4
   ExhaustNodes = 4
-  Patterns = {1, 2}
+  Patterns = {2}
   Ops = {"NewickRT", "NewickNamesRT", "NewickDefaultRT", "JsonRT", "RichDictRT", "Copy", "DeepCopy", "CopyModule", "DndRT", "Sorted", "SortedRev", "RootedAt", "RootedWithTip", "Unrooted", "SubTree", "RootAtMidpoint", "Prune", "Bifurcating", "Query"}
   TipsOnlyVals = {FALSE, TRUE}
   ShapeMod = 1
